@@ -32,7 +32,7 @@ class C13(Prop):
             elif kind < 8:
                 al.append(bytes(r.below(256) for _ in range(r.below(6))).replace(b"\n", b"x"))
             else:
-                al.append(r.choice([b"a\xffb", b"a\xfeb", b" ", b"\t", b"  x", b"x  ", b"\xe2\x86\xb5", b"---", b"\x1b[0m", b""]))
+                al.append(r.choice([b"a\xffb", b"a\xfeb", b" ", b"\t", b"  x", b"x  ", b"\xe2\x86\xb5", b"---", b"\x1b[0m", b"", b"x\r", b"x", b"\r", b"100%"]))
         return al
 
     def mutate(self, r, s, alpha):
